@@ -76,6 +76,13 @@ def cases(tier, seed):
                         ops.append("rt.setu %d u16 0043" % h)
                         ops.append("rt.get %d" % h)
                         ops.append("rt.default %d" % h)
+                    # a user initialisation that fails half-way (or not at all) and a sanitise pass in between: what is
+                    # accepted afterwards is what was accepted before
+                    for k in (0, 1, 2, 7):
+                        ops.append("rt.userinit %d" % k)
+                        for v in vals[:6]:
+                            ops.append("rt.set 1 %s %s" % (ty, hexv(ty, v)))
+                            ops.append("rt.get 1")
                     for i in range(0, len(ops) - 2, 400):
                         chunk = ops[:2] + ops[2 + i:2 + i + 400] if i else ops[:402]
                         cs.append(Case("t%d" % n, chunk, ("typed", ty, cname)))
